@@ -343,7 +343,55 @@ def gen_merge():
     return "GenMerge.v", text, {"cleared": cleared, "markers": marks}
 
 
-GENERATORS = {"proc": gen_proc, "vte": gen_vte, "features": gen_features, "syntax": gen_syntax, "counter": gen_counter, "grep": gen_grep, "merge": gen_merge}
+def gen_sbs():
+    """the two guarded rewrites of the side-by-side block of set_options (src/options/set.rs): which command-line key
+    switches the rewrite of which option off"""
+    src = rustsrc.load(os.path.join(REPO, "src/options/set.rs"))
+    m = re.search(r'if features\.contains\(&"side-by-side"\.to_string\(\)\) \{', src)
+    if not m:
+        raise PatternError("set_options: the side-by-side block was not found")
+    j = rustsrc.match_brace(src, m.end() - 1)
+    body = norm(src[m.end():j])
+    blocks = re.findall(r'if !config::user_supplied_option\("(\w+)", arg_matches\) && opt\.(\w+)\.starts_with\(prefix\) \{ '
+                        r'opt\.(\w+) = format!\("syntax \{\}", &opt\.(\w+)\[prefix\.len\(\)\.\.\]\); \}', body)
+    rest = re.sub(r'if !config::user_supplied_option\("(\w+)", arg_matches\) && opt\.(\w+)\.starts_with\(prefix\) \{ '
+                  r'opt\.(\w+) = format!\("syntax \{\}", &opt\.(\w+)\[prefix\.len\(\)\.\.\]\); \}', "", body).strip()
+    if rest != 'let prefix = "normal ";':
+        raise PatternError("set_options: the side-by-side block has a different shape: " + rest[:200])
+    names = {"minus_style": "MinusStyle", "minus_emph_style": "MinusEmphStyle"}
+    guard = {}
+    for key, f1, f2, f3 in blocks:
+        if not (f1 == f2 == f3) or f1 not in names or key not in names:
+            raise PatternError(f"set_options: side-by-side rewrite of {f2} tests {f1}, reads {f3}, key {key}")
+        guard[f1] = key
+    if set(guard) != set(names):
+        raise PatternError(f"set_options: the side-by-side block rewrites {sorted(guard)}")
+    text = ("(* GENERATED by tools/translate.py from src/options/set.rs (set_options, the side-by-side block):\n"
+            "   the command-line key whose presence switches the `normal` -> `syntax` rewrite of each option off. *)\n"
+            "From DV Require Import SbsStyles.\n"
+            "Definition code_guard (o : sopt) : sopt :=\n  match o with\n"
+            + "".join(f"  | {names[o]} => {names[guard[o]]}\n" for o in ("minus_style", "minus_emph_style")) + "  end.\n")
+    return "GenSbs.v", text, {"guard": guard}
+
+
+def gen_hunkpath():
+    """which file name emit_hunk_header_line prints in a hunk header (src/handlers/hunk_header.rs)"""
+    src = rustsrc.load(os.path.join(REPO, "src/handlers/hunk_header.rs"))
+    body = norm(rustsrc.fn_body(src, r"pub fn emit_hunk_header_line\("))
+    ms = re.findall(r'if self\.(minus|plus)_file == "/dev/null" \{ &self\.(minus|plus)_file \} else \{ &self\.(minus|plus)_file \}', body)
+    if len(ms) != 1:
+        raise PatternError("emit_hunk_header_line: the choice of the printed path has a different shape")
+    side = {"minus": "OldSide", "plus": "NewSide"}
+    t, a, b = ms[0]
+    text = ("(* GENERATED by tools/translate.py from src/handlers/hunk_header.rs (emit_hunk_header_line): the side whose name\n"
+            "   is compared with /dev/null, the side printed when it is, the side printed otherwise. *)\n"
+            "From DV Require Import HunkPath.\n"
+            f"Definition code_tested : fside := {side[t]}.\nDefinition code_on_null : fside := {side[a]}.\n"
+            f"Definition code_otherwise : fside := {side[b]}.\n")
+    return "GenHunkPath.v", text, {"tested": t, "on_null": a, "otherwise": b}
+
+
+GENERATORS = {"proc": gen_proc, "vte": gen_vte, "features": gen_features, "syntax": gen_syntax, "counter": gen_counter, "grep": gen_grep, "merge": gen_merge, "sbs": gen_sbs, "hunkpath": gen_hunkpath}
 
 
 def run(which=None):
